@@ -44,6 +44,16 @@ def run(prop, tier, seed, replay=None):
                 steps.append(st)
             sc["steps"] = steps
             cases.append(sc)
+        # Privacy.tla with PxOk = FALSE: a proxied torrent whose proxy string cannot be used lets nothing past it
+        r = run_tlc("MCPrivacy", "Privacy_badproxy.cfg", workers=4, timeout=600)
+        require_ok(r, "Privacy model check (unusable proxy)")
+        v.add_tlc("Privacy_badproxy.cfg", r)
+        nbad = 0
+        for px in range(5):
+            for dht in ("none", "passive", "normal"):
+                cases.append({"kind": "badproxy", "pxstr": px, "id": len(cases), "init": {"proxy": True, "kind": "http", "conf": {"trk": True, "ws": True, "dht": dht}}, "steps": []})
+                nbad += 1
+        v.cov["unusable_proxy_cases"] = nbad
     vh = vlib.build_harness()
     wd = vlib.scratch("priv-")
     sf, rf = os.path.join(wd, "cases.ndjson"), os.path.join(wd, "res.ndjson")
